@@ -1,10 +1,14 @@
 package c07
 
 import (
+	"crypto/tls"
+
+	apiv1 "k8s.io/api/core/v1"
 	"sigs.k8s.io/controller-runtime/pkg/client"
 	gatewayv1 "sigs.k8s.io/gateway-api/apis/v1"
 
 	"github.com/nginx/nginx-gateway-fabric/verifharness/c02"
+	"github.com/nginx/nginx-gateway-fabric/verifharness/c16"
 	p "github.com/nginx/nginx-gateway-fabric/verifharness/pipeline"
 	"github.com/nginx/nginx-gateway-fabric/verifharness/rng"
 	"github.com/nginx/nginx-gateway-fabric/verifharness/scen"
@@ -162,5 +166,77 @@ func RunFragment(id string, s *Scenario, reloadFailed bool) Line {
 	ln := Run(id, s.Objs, s.Opts, reloadFailed, s.Tags)
 	fl := c02.Flatten(s.Objs, s.Opts)
 	ln.Flat = &fl
+	return ln
+}
+
+// JSecret is a Secret as lean/NGF/Model/TlsBind.lean reads it (same JSON as harness/c16).
+type JSecret struct {
+	NS     string `json:"ns"`
+	Name   string `json:"name"`
+	Type   string `json:"type"`
+	Cert   string `json:"cert"`
+	Key    string `json:"key"`
+	PairOK bool   `json:"pairOK"` // crypto/tls.X509KeyPair accepts (cert, key)
+}
+
+// GenerateFragmentTLS draws a scenario of the TLS layer of the pipeline model (C16's generator c16.GenFragmentTLS: HTTPS listeners
+// with good / missing / malformed / wrong-type / cross-namespace Secrets and ReferenceGrants, rejected certificateRefs, HTTP/HTTPS port
+// conflicts) and adds parentRefs that select single listeners, so that routes attach to invalid listeners only, to valid ones only, or both.
+func GenerateFragmentTLS(r *rng.R) *Scenario {
+	base := c16.GenFragmentTLS(r)
+	s := &Scenario{Objs: base.Objs, Opts: base.Opts, Tags: base.Tags}
+	if s.Tags == nil {
+		s.Tags = map[string]int{}
+	}
+	var gw *gatewayv1.Gateway
+	for _, o := range s.Objs {
+		if g, ok := o.(*gatewayv1.Gateway); ok && g.Name == "gw" {
+			gw = g
+			g.Generation = int64(r.Range(1, 9))
+		}
+	}
+	if gw == nil || len(gw.Spec.Listeners) == 0 {
+		c02.ApplyDefaults(s.Objs)
+		return s
+	}
+	for _, o := range s.Objs {
+		hr, ok := o.(*gatewayv1.HTTPRoute)
+		if !ok {
+			continue
+		}
+		hr.Generation = int64(r.Range(1, 9))
+		if r.Chance(50, 100) {
+			// replace / extend the parentRefs by references to single listeners
+			var prs []gatewayv1.ParentReference
+			seen := map[string]bool{}
+			for i, n := 0, r.Range(1, 3); i < n; i++ {
+				l := string(rng.Pick(r, gw.Spec.Listeners).Name)
+				if !seen[l] {
+					seen[l] = true
+					prs = append(prs, p.ParentRef(gw.Namespace, "gw", l))
+				}
+			}
+			if r.Chance(20, 100) {
+				prs = append(prs, p.ParentRef(gw.Namespace, "gw", "nope"))
+			}
+			hr.Spec.ParentRefs = prs
+			s.tag("tls-parentrefs-by-listener")
+		}
+	}
+	c02.ApplyDefaults(s.Objs)
+	return s
+}
+
+// RunFragmentTLS = RunFragment + the Secrets.
+func RunFragmentTLS(id string, s *Scenario, reloadFailed bool) Line {
+	ln := RunFragment(id, s, reloadFailed)
+	ln.Secrets = []JSecret{}
+	for _, o := range s.Objs {
+		if x, ok := o.(*apiv1.Secret); ok {
+			_, err := tls.X509KeyPair(x.Data[apiv1.TLSCertKey], x.Data[apiv1.TLSPrivateKeyKey])
+			ln.Secrets = append(ln.Secrets, JSecret{NS: x.Namespace, Name: x.Name, Type: string(x.Type),
+				Cert: string(x.Data[apiv1.TLSCertKey]), Key: string(x.Data[apiv1.TLSPrivateKeyKey]), PairOK: err == nil})
+		}
+	}
 	return ln
 }
